@@ -164,8 +164,20 @@ def main(pid, runner, argv=None):
     except tlcmod.MachineryError as e:
         print("MACHINERY-FAILURE %s: %s" % (pid, e), file=sys.stderr)
         return 2
-    except Exception:
+    except Exception as e:
         traceback.print_exc()
+        # An exception that originates inside phonopy itself (innermost frame under the repository)
+        # while the harness drives it along behaviours the unchanged tree executes without error is
+        # the implementation leaving the specified behaviour: a violation, not a machinery failure.
+        repo = os.path.abspath(os.environ.get("VERIF_REPO", "/repo"))
+        tb = traceback.extract_tb(e.__traceback__)
+        inner = os.path.abspath(tb[-1].filename) if tb else ""
+        if inner.startswith(repo + os.sep):
+            ctx.violation("exception:%s:%s" % (type(e).__name__, os.path.relpath(inner, repo)),
+                          "phonopy raised %s at %s:%s (%s) where the specification expects a result"
+                          % (type(e).__name__, os.path.relpath(inner, repo), tb[-1].lineno, str(e)[:200]),
+                          dict(traceback=traceback.format_exception(type(e), e, e.__traceback__)[-6:]))
+            return ctx.finish()
         print("MACHINERY-FAILURE %s" % pid, file=sys.stderr)
         return 2
     return ctx.finish()
